@@ -282,6 +282,10 @@ func TestC05ExitRestore(t *testing.T) {
 				if tr := r.W.Track(); tr != nil && tr.BRUID == "" {
 					sig += "-batchrelease-never-created"
 				}
+				// circumstances: the user changed the template again while the release was progressing
+				if tr := r.W.Track(); tr != nil && tr.Cancels > 0 {
+					sig += "-after-rollback-or-supersession"
+				}
 				vlib.Fail(t, "c05-exit-restore", sig, c, "after the rollout ended the cluster is not as the user configured it: %s\nuser log: %v", strings.Join(res, "; "), r.UserLog)
 			}
 		}})
